@@ -3,7 +3,7 @@
 import glob, json, os, re
 
 V = "/verif"
-rows, n_yes, n_after, rounds = [], 0, 0, set()
+rows, n_yes, n_after, n_no, rounds = [], 0, 0, 0, set()
 for d in sorted(glob.glob(os.path.join(V, "seeded", "*"))):
     m = json.load(open(os.path.join(d, "meta.json")))
     name = os.path.basename(d)
@@ -11,6 +11,7 @@ for d in sorted(glob.glob(os.path.join(V, "seeded", "*"))):
     det = m["verif"]["detected"]
     n_yes += det == "yes"
     n_after += det == "after-strengthening"
+    n_no += det == "no"
     clean = lambda s: " ".join(str(s).replace("|", "/").split())
     extra = ""
     if m["verif"].get("obsolete"):
@@ -37,10 +38,14 @@ with the library's own attributes, methods or parameters (`record`, `name`, `key
 Six seeds are filed under the property whose check catches them rather than the one they were written for (C07e_3 -> C09,
 C03f_1 -> C01, C03f_2 -> C04, and earlier ones noted in the table); two became meaningless through later repository
 fixes (marked NOW OBSOLETE) and a few were re-based onto such fixes.
+{{missed}}
 
 | seed | property | change | detected | what was run / what had to be added |
 |---|---|---|---|---|
 """
+missed = "" if not n_no else (f"{n_no} seeds of the last (short) round are recorded as `no`: the check as it stands does NOT catch them, the session ended before the "
+    "driver could be extended, and the note says which scenario is missing -- they are the first work items of a next session.")
+intro = intro.replace("{missed}", missed)
 p = os.path.join(V, "DESIGN.md")
 s = open(p).read()
 a = s.index("## 16. Seeded changes")
